@@ -569,6 +569,132 @@ fn run_validate_case(ctx: &Ctx, rng: &mut Rng, cnt: &mut Cnt) {
 // part C: CompactionFileMover directly
 // ---------------------------------------------------------------------------
 
+/// One mover, several calls, several files: a mover is a buffer plus a byte counter; whatever else it keeps must not
+/// leak from one call into the next. Sequences of 2..=6 `move_data` calls over two source and two destination files whose
+/// handles stay open for the whole sequence; half of the calls CONTINUE the offsets of the previous call (on the same files,
+/// as a merge plan does, or on the other files), and between calls the harness sometimes uses the handles itself (the
+/// cursors are then somewhere else). Every destination must equal the splice model, the sources must be unchanged.
+fn run_mover_sequence(ctx: &Ctx, rng: &mut Rng, dir: &Path, cnt: &mut Cnt) {
+    use std::io::{Seek, SeekFrom};
+    let budget = *rng.pick(&BUDGETS);
+    let salt = rng.next_u64();
+    let lens: [usize; 4] = [gen_file_len(rng, true).max(64), gen_file_len(rng, true).max(64), gen_file_len(rng, false).max(1), gen_file_len(rng, false).max(1)];
+    let srcs = [content(lens[0], salt), content(lens[1], salt ^ 0x1111)];
+    let mut want = [content(lens[2], salt ^ 0x2222), content(lens[3], salt ^ 0x3333)];
+    let paths = [dir.join("seq-a0"), dir.join("seq-a1"), dir.join("seq-b0"), dir.join("seq-b1")];
+    if std::fs::write(&paths[0], &srcs[0]).is_err() || std::fs::write(&paths[1], &srcs[1]).is_err() || std::fs::write(&paths[2], &want[0]).is_err() || std::fs::write(&paths[3], &want[1]).is_err() {
+        ctx.inconclusive("cannot write scratch files");
+        return;
+    }
+    let open = || -> std::io::Result<(Vec<std::fs::File>, Vec<std::fs::File>)> {
+        Ok((vec![OpenOptions::new().read(true).open(&paths[0])?, OpenOptions::new().read(true).open(&paths[1])?], vec![OpenOptions::new().read(true).write(true).open(&paths[2])?, OpenOptions::new().read(true).write(true).open(&paths[3])?]))
+    };
+    let Ok((mut fa, mut fb)) = open() else {
+        ctx.inconclusive("cannot open scratch files");
+        return;
+    };
+    let mut mover = CompactionFileMover::new(budget);
+    let n = rng.urange(2, 6);
+    let mut prev: Option<(usize, usize, u64, u64)> = None;
+    let mut steps: Vec<Value> = Vec::new();
+    let mut total = 0u64;
+    let mut continued_other_files = false;
+    for _ in 0..n {
+        let (mut sa, mut sb) = (rng.usize_below(2), rng.usize_below(2));
+        let mut src;
+        let mut dst;
+        let mut len;
+        let mut how = "fresh";
+        match prev {
+            Some((psa, psb, send, dend)) if rng.bool() => {
+                // continue the previous call's offsets, on the same pair or on other files
+                if rng.bool() {
+                    sa = psa;
+                    sb = psb;
+                    how = "continues-previous-call-on-the-same-files";
+                } else {
+                    sa = 1 - psa;
+                    sb = if rng.bool() { 1 - psb } else { psb };
+                    how = "continues-previous-offsets-on-other-files";
+                }
+                src = send;
+                dst = dend;
+                if src as usize >= srcs[sa].len() {
+                    src = 0;
+                    how = "fresh";
+                }
+                len = rng.range(0, (srcs[sa].len() as u64 - src).min(300_000));
+            }
+            _ => {
+                len = rng.range(0, (srcs[sa].len() as u64).min(300_000));
+                src = rng.range(0, srcs[sa].len() as u64 - len);
+                dst = rng.range(0, want[sb].len() as u64);
+            }
+        }
+        if how == "continues-previous-offsets-on-other-files" && len > 0 {
+            continued_other_files = true;
+        }
+        // the caller may have used the handles in between
+        if rng.chance(1, 3) {
+            let _ = fa[sa].seek(SeekFrom::Start(rng.range(0, srcs[sa].len() as u64)));
+            let _ = fb[sb].seek(SeekFrom::Start(rng.range(0, want[sb].len() as u64)));
+            cnt.add("mover.sequence.handles_used_by_the_caller_between_calls", 1);
+        }
+        let r = {
+            let (a, b) = (&mut fa[sa], &mut fb[sb]);
+            mover.move_data(a, src, b, dst, len)
+        };
+        steps.push(json!({"source": sa, "dest": sb, "src": src, "dst": dst, "len": len, "how": how, "ok": r.is_ok()}));
+        cnt.add("mover.sequence.calls", 1);
+        cnt.add(&format!("mover.sequence.call.{how}"), 1);
+        if let Err(e) = r {
+            ctx.violation("C18|move_data|in-range-move-refused|sequence-of-calls-on-one-mover", "move_data failed for a source range inside the source file", json!({"case": {"kind": "mover-sequence", "budget": budget, "lens": lens, "salt": salt.to_string(), "steps": steps}, "error": e.to_string()}));
+            return;
+        }
+        if len > 0 {
+            let end = (dst + len) as usize;
+            if want[sb].len() < end {
+                want[sb].resize(end, 0);
+            }
+            let piece = srcs[sa][src as usize..(src + len) as usize].to_vec();
+            want[sb][dst as usize..end].copy_from_slice(&piece);
+        }
+        total += len;
+        prev = Some((sa, sb, src + len, dst + len));
+        let _ = (&mut src, &mut dst, &mut len);
+    }
+    drop(fa);
+    drop(fb);
+    let detail = json!({"kind": "mover-sequence", "budget": budget, "lens": lens, "salt": salt.to_string(), "steps": steps, "replay": "re-run the tier with the same seed"});
+    let h = mix64(fnv64(b"mover-seq"), fnv64(detail.to_string().as_bytes()));
+    if total > 0 {
+        ctx.eval_nontrivial(h);
+    } else {
+        ctx.eval();
+    }
+    if continued_other_files {
+        cnt.add("mover.sequence.with_offsets_continued_on_other_files", 1);
+    }
+    for (i, p) in paths.iter().enumerate() {
+        let got = std::fs::read(p).unwrap_or_default();
+        if i < 2 {
+            if got != srcs[i] {
+                ctx.violation("C18|move_data|source-file-modified|sequence-of-calls-on-one-mover", "move_data changed a source file", json!({"case": detail, "file": i}));
+            }
+        } else if got != want[i - 2] {
+            let first = got.iter().zip(&want[i - 2]).position(|(x, y)| x != y);
+            ctx.violation(
+                "C18|move_data|destination-differs-from-splice-model|sequence-of-calls-on-one-mover",
+                "after a sequence of move_data calls on one mover a destination file is not 'old bytes with every [dst, dst+len) replaced by its source range'",
+                json!({"case": detail, "dest_file": i - 2, "first_diff": first, "len_after": got.len(), "want_len": want[i - 2].len()}),
+            );
+        }
+    }
+    if mover.bytes_moved() != total {
+        ctx.violation("C18|move_data|bytes_moved-differs-from-length|sequence-of-calls-on-one-mover", "bytes_moved() does not equal the sum of the lengths moved", json!({"case": detail, "bytes_moved": mover.bytes_moved(), "sum": total}));
+    }
+}
+
 fn run_mover_case(ctx: &Ctx, rng: &mut Rng, dir: &Path, cnt: &mut Cnt, detail_override: Option<&Value>) {
     let (which, budget, la, lb, src, dst, len, salt) = if let Some(d) = detail_override {
         let g = |k: &str| d.get(k).and_then(Value::as_u64).unwrap_or(0);
@@ -2311,7 +2437,11 @@ fn main() {
                         } else if ix < n_extract + n_validate {
                             run_validate_case(ctx, &mut rng, &mut cnt);
                         } else if ix < n_extract + n_validate + n_mover {
-                            run_mover_case(ctx, &mut rng, tmp.path(), &mut cnt, None);
+                            if ix % 4 == 3 {
+                                run_mover_sequence(ctx, &mut rng, tmp.path(), &mut cnt);
+                            } else {
+                                run_mover_case(ctx, &mut rng, tmp.path(), &mut cnt, None);
+                            }
                         } else if ix < n_extract + n_validate + n_mover + n_plan {
                             let c = gen_plan_case(&mut rng);
                             run_plan_case(ctx, &c, &mut cnt);
